@@ -10,7 +10,11 @@
     tree x destination pre-state x helper) runs on rotating store pairs: once
     without fault, then once per primitive call of either side (Reader, Read,
     Writer, Write, Close, MkdirAll, ReadDir, Filespace ...) with that call failing;
-    verdict from the real error result vs the real destination tree."""
+    verdict from the real error result vs the real destination tree.
+    The copy helpers are also called by 8 goroutines at once on distinct files (after a
+    few sequential copies): every destination must be byte-exact (the helpers share
+    nothing that the statement mentions; the statement does not quantify over schedules,
+    so this is free-running, not model-driven)."""
 import os, json
 import vlib
 
@@ -64,6 +68,11 @@ def run(ctx):
         vlib.report_case_failures(ctx, m, 'copy scenarios')
         if m['executed'] == 0:
             raise vlib.Infra('no copy scenario executed')
+    # ---------------- the copy helpers used by several goroutines at once on distinct files
+    mp = ctx.vh(['copypar', '--rounds', '40' if q else '400'], timeout=3000)
+    ctx.cov['replay'].append(dict(what='parallel copies of distinct files (mem>mem, mem>encrypted)', executed=mp['executed'], failures=mp['failures_by_key']))
+    ctx.cov['evaluations'] += mp['executed']
+    vlib.report_case_failures(ctx, mp, 'parallel copies')
     ctx.cov['exhaustive'] = not q
     ctx.cov['traces_validated_against_impl'] = 0
     ctx.cov['rule'] = ('scenarios enumerated by TLC (quick: every 2nd stream / 3rd copy scenario by seed); copy scenarios are expanded by the harness '
